@@ -306,6 +306,41 @@ fn make_hook(sched: &Arc<Sched>, name: &'static str, k: usize, is_async: bool) -
     }
 }
 
+/// `PoolBuilder::build()` with pool-level timeouts; also checks that a pool that was
+/// built reports the configured timeouts.
+pub fn try_build(w: Tmo, c: Tmo, r: Tmo, rt: bool) -> &'static str {
+    let sched = Sched::new();
+    let truth = Arc::new(Truth {
+        live: Mutex::new(BTreeSet::new()),
+        next_id: Mutex::new(0),
+    });
+    let mgr = Mgr { truth, sched };
+    let t = Timeouts {
+        wait: w.dur(),
+        create: c.dur(),
+        recycle: r.dur(),
+    };
+    let mut b = Pool::<Mgr>::builder(mgr).config(PoolConfig {
+        max_size: 2,
+        timeouts: t,
+        queue_mode: QueueMode::Fifo,
+    });
+    if rt {
+        b = b.runtime(Runtime::Tokio1);
+    }
+    match b.build() {
+        Ok(p) => {
+            let got = p.timeouts();
+            if got.wait == t.wait && got.create == t.create && got.recycle == t.recycle && p.status().max_size == 2 {
+                "ok"
+            } else {
+                "ok-but-config-changed"
+            }
+        }
+        Err(deadpool::managed::BuildError::NoRuntimeSpecified) => "no_runtime",
+    }
+}
+
 #[derive(Clone, Debug)]
 pub enum Spec {
     Get(Tmo, Tmo, Tmo),
